@@ -56,6 +56,9 @@ impl Property for C08 {
         let mut rep = RunReport::default();
         let b = |s: &str| s.as_bytes().to_vec();
         let wal_on = src.chance(1, 2);
+        // half of the runs recover the object store the way the server does: StreamingIntegration::recover into a node
+        // (its own recover_with_progress path and its own hand-over to the shards), whose state is then transplanted
+        let via_integration = src.chance(1, 2);
         let mut uniq = 0u64;
         let events: Vec<Ev> = src.list(30, 19, 20, |s| {
             uniq += 1;
@@ -122,10 +125,23 @@ impl Property for C08 {
             'incarnation: loop {
                 // ---- start-up: recover, replay WAL, wire sink and WAL actor (as server_persistent does)
                 let mut node = Node::new(1, ConsistencyLevel::Eventual, &clock);
-                let rec = match RecoveryManager::new(store.clone(), PREFIX, 1).recover().await { Ok(r) => r, Err(e) => { o.viol = Some(("C08/recovery-failed".into(), e.to_string())); return o; } };
-                if rec.checkpoint_state.is_some() { o.probes.push("recovered_from_checkpoint"); }
-                if o.crashes > 0 && trace { o.log.push(format!("recovery: checkpoint={} segments_deltas={}", rec.checkpoint_state.as_ref().map(|c| c.len()).unwrap_or(0), rec.deltas.len())); }
-                node.state.apply_recovered_state(rec.checkpoint_state, rec.deltas);
+                let (rec_cp, rec_deltas): (Option<HashMap<String, ReplicatedValue>>, Vec<ReplicationDelta>) = if via_integration {
+                    use redis_sim::streaming::{StreamingConfig, StreamingIntegration};
+                    redis_sim::production::verif_hooks::clock::set(clock.now());
+                    let tmp = redis_sim::production::ReplicatedShardedState::new(crate::model::cluster::repl_config(1, ConsistencyLevel::Eventual));
+                    let integ = StreamingIntegration::with_store(Arc::new(store.clone()), StreamingConfig { prefix: PREFIX.to_string(), ..StreamingConfig::default() }, 1);
+                    let r = integ.recover(&tmp).await;
+                    let snap = tmp.snapshot_state().await;
+                    redis_sim::production::verif_hooks::clock::clear();
+                    if let Err(e) = r { o.viol = Some(("C08/recovery-failed".into(), e.to_string())); return o; }
+                    if !o.probes.contains(&"recovered_through_streaming_integration") { o.probes.push("recovered_through_streaming_integration"); }
+                    (if snap.is_empty() { None } else { Some(snap) }, Vec::new())
+                } else {
+                    match RecoveryManager::new(store.clone(), PREFIX, 1).recover().await { Ok(r) => (r.checkpoint_state, r.deltas), Err(e) => { o.viol = Some(("C08/recovery-failed".into(), e.to_string())); return o; } }
+                };
+                if rec_cp.is_some() && !via_integration { o.probes.push("recovered_from_checkpoint"); }
+                if o.crashes > 0 && trace { o.log.push(format!("recovery{}: checkpoint={} segments_deltas={}", if via_integration { " (through StreamingIntegration::recover into a node, state transplanted)" } else { "" }, rec_cp.as_ref().map(|c| c.len()).unwrap_or(0), rec_deltas.len())); }
+                node.state.apply_recovered_state(rec_cp, rec_deltas);
                 if wal_on {
                     let rot = WalRotator::new(SimWalStore::from_image(&wal_store.durable_image()), walcfg.max_file_size).expect("rotator");
                     let ds: Vec<ReplicationDelta> = rot.recover_all_entries().unwrap_or_default().iter().filter_map(|e| e.to_delta().ok()).collect();
@@ -276,7 +292,7 @@ impl Property for C08 {
         if out.crashes > 0 { *rep.faults.entry("node_crash_and_recovery").or_insert(0) += out.crashes; }
         rep.evals = out.evals.max(1);
         rep.nontrivial = out.probes.contains(&"write_after_restart_same_key");
-        let mut fp = fnv(0, &[wal_on as u8]);
+        let mut fp = fnv(0, &[wal_on as u8, via_integration as u8]);
         for e in &events { fp = fnv(fp, format!("{:?}", e).as_bytes()); }
         rep.fingerprint = fp;
         rep.sample = Some(json!({"wal": wal_on, "events": events.iter().map(|e| match e { Ev::Write(c) => show_cmd(c), Ev::Remote { key, time, hash, tomb } => format!("remote delta key{} +{}{}{}", key, time, if *hash { " (hash)" } else { "" }, if *tomb { " (tombstone)" } else { "" }), o2 => format!("{:?}", o2) }).collect::<Vec<_>>() }));
